@@ -94,10 +94,10 @@ PROPS["C16"] = P(["provider", "waitpay"],
     "Trusted: " + TB_COMMON + " env/cln_pay.rs (pay status semantics; a pay RPC that has returned creates no further parts); wait_payment enters under its interface contract (C15).",
     assumptions=A_WORLD + ["a pay command that has returned (result or RPC error) creates no further parts"])
 
-PROPS["C17"] = P(["codec"],
-    "Proof of the codec half (Verus): MultiLineCodec::decode and find_separator verbatim: without a blank-line separator decode returns Ok(None) and leaves the buffer untouched; otherwise it consumes exactly the bytes up to and including the FIRST separator and returns the UTF-8 text before it (Err iff not UTF-8), no index/overflow panic. Lemmas: appending bytes never moves the first separator (chunking independence), and a split inside the separator is found once both bytes are present. Everything else in C17 is not applicable.",
+PROPS["C17"] = P(["codec", "driver"],
+    "Proof of the codec half (Verus): MultiLineCodec::decode and find_separator verbatim: without a blank-line separator decode returns Ok(None) and leaves the buffer untouched; otherwise it consumes exactly the bytes up to and including the FIRST separator and returns the UTF-8 text before it (Err iff not UTF-8), no index/overflow panic. Lemmas: appending bytes never moves the first separator (chunking independence), and a split inside the separator is found once both bytes are present. Reply path (E6 slice of PluginDriver::dispatch_one, the body of the task spawned per request): once the handler has finished exactly one reply carrying that request's id is handed to the writer queue (send waits for room), the result on success and the error object otherwise. Everything else in C17 is not applicable.",
     "Trusted: " + TB_COMMON + " env/codec_env.rs: BytesMut (split_to, range index, len), and the std semantics of iter().zip(iter().skip(1)).position(pred) (first index whose pair satisfies the predicate) as an env iterator model; the predicate closure itself is checked (E8). utf8() is under an assumed contract; encode() is not under contract (vstd has no usable spec for str::len / as_bytes). "
-    "NOT APPLICABLE clauses: FramedRead's read loop (tokio-util), one reply per request id under out-of-order completion, non-interleaved concurrent writes (tokio::spawn'ed boxed callbacks, json!, FramedWrite behind a mutex), JSON well-formedness (serde_json).",
+    "env/driver_env.rs: tokio mpsc send/try_send, the two json! reply shapes as opaque constructors. NOT APPLICABLE clauses: FramedRead's read loop (tokio-util), that every request reaches dispatch_one and its task is spawned (boxed callbacks, tokio::spawn), non-interleaved concurrent writes (tokio::spawn'ed boxed callbacks, json!, FramedWrite behind a mutex), JSON well-formedness (serde_json).",
     assumptions=["tokio-util FramedRead appends the bytes read and calls decode until it returns None", "std slice iteration semantics (env model)"],
     not_covered=["MultiLineCodec::encode", "the plugin driver loop (src/cln_plugin/mod.rs)", "logging writer"])
 
